@@ -48,6 +48,7 @@ fragment's texts is what the differential checks.
 import QuiverModel.Core.Prelude
 import QuiverModel.Core.Parse.Type
 import QuiverModel.Core.Text.Doc
+import QuiverModel.Core.Text.Scan
 namespace QM.Text
 
 /-- `format.rs::break_if_wider_than` -/
@@ -80,6 +81,9 @@ inductive T where
   | int (i : Int)
   /-- `Term::Literal(Literal::Binary(bytes))` -/
   | bin (bytes : List Nat)
+  /-- `Term::String(StringStyle::Single, segments, _)` without holes: no segment for the empty
+      string, else one `Text` segment with the UTF-8 bytes of `value` -/
+  | str (value : Str)
   | tup (name : Option Str) (fields : List F)
 inductive F where
   | mk (label : Option Str) (value : T)
@@ -99,6 +103,7 @@ def T.WF : T → Prop
   | .leaf n => isIdentStr n = true
   | .int _ => True
   | .bin bs => ∀ b ∈ bs, b < 256
+  | .str _ => True
   | .tup name fs => optOk isTupleNameStr name ∧ F.WFList fs
 def F.WF : F → Prop
   | .mk l t => optOk isIdentStr l ∧ T.WF t
@@ -119,6 +124,9 @@ def hexText : List Nat → Str
 
 /-- `render_literal` of a binary: `0x` and the hex digits -/
 def binText (bs : List Nat) : Str := '0' :: 'x' :: hexText bs
+
+/-- `single_line_string_doc` of a string without holes: the re-escaped text between quotes -/
+def strText (v : Str) : Str := '"' :: (escapeSingle v ++ ['"'])
 
 /-- `CHAIN_SOFT_WIDTH` -/
 def chainSoftWidth : Nat := 50
@@ -146,6 +154,7 @@ def termDoc : T → Doc
   | .leaf n => .text n
   | .int i => .text (intText i)
   | .bin bs => .text (binText bs)
+  | .str v => .text (strText v)
   | .tup name fs => if fs.isEmpty then .text (emptyText name) else bracketed (openText name) (fieldDocs fs)
 /-- `field_doc`: `chain_doc`, behind `name: ` for a named field -/
 def fieldDocOf : F → Doc
@@ -235,14 +244,28 @@ def binaryP : P (List Nat) :=
 /-- `literal` = `alt((binary_literal, integer_literal))` -/
 def literalP : P T := alt (pmap binaryP T.bin) (pmap integerP T.int)
 
-/-- `primary` restricted to the fragment (literal | tuple | access of a bare identifier — in the order
+/-- `string_term` for a single-line string without holes: `"""` goes to the multi-line alternative
+    (outside the fragment: plain error here); else `string_segments` after the opening quote must reach
+    the closing quote without meeting an unescaped `{` (hole), a bad escape or the end of the input
+    (nom `Failure`s in the Rust, plain errors in the model). -/
+def stringP : P T := fun i =>
+  match i with
+  | '"' :: body =>
+    if startsTripleQuote i then .err i .tag
+    else
+      match stringSegments body with
+      | .closed text rest => .ok (.str text) rest
+      | _ => .err i .verify
+  | _ => .err i .char
+
+/-- `primary` restricted to the fragment (string | literal | tuple | access of a bare identifier — in the order
     of the Rust `alt`; `decimal_term` / `fraction_term`, tried before `literal`, fail when the digits are
     not followed by `.` / `/`, which `Stop` excludes); the recursion through
     `tuple_field` → `chain` → `primary` is tied by fuel as in Core/Parse/Type (`Res.out` = fuel
     exhausted). -/
 def termP : Nat → P T
   | 0 => fun _ => .out
-  | n + 1 => alt literalP (alt (tupleP (fieldP (termP n))) (pmap identifier T.leaf))
+  | n + 1 => alt stringP (alt literalP (alt (tupleP (fieldP (termP n))) (pmap identifier T.leaf)))
 
 /-- `eof` -/
 def peof : P Unit := fun i =>
